@@ -2,8 +2,6 @@
    The only place where the model looks at the sign of a char is the final comparison of the
    four comparers; the search result is independent of it for every token. *)
 From PS Require Import Base LangDefs SpecDefs LangProofs LangData ApiDefs RefineProofs SgnProofs.
-From PS Require Import CTieLang.
-From PS.Gen Require CFuns.
 From PS.Gen Require Import Langs.
 
 Theorem C19_search_sgn_independent : forall L key, In L langs -> no_nul key ->
